@@ -1,5 +1,6 @@
-"""gfortran as a *validity oracle* only (-fsyntax-only; nothing is ever
-executed): used by C10 (directive structure) and C04 (declarations)."""
+"""gfortran as a *validity oracle* only (nothing is ever executed): used by
+C10 (directive structure; compiled to a discarded object so that the middle
+end's nesting checks run) and C04 (declarations; -fsyntax-only)."""
 import os
 import re
 import shutil
@@ -7,15 +8,20 @@ import subprocess
 import tempfile
 
 
-def compile_text(text, flags):
-    """Returns list of (message, quoted source line) for every Error."""
+def compile_text(text, flags, full=False):
+    """Returns list of (message, quoted source line) for every Error.
+    full=True compiles to an object that is thrown away (-c -O0) instead of
+    stopping after parsing: the OpenMP/OpenACC nesting rules ("may not be
+    closely nested inside ...") are only enforced by the middle end."""
     root = "/dev/shm" if os.path.isdir("/dev/shm") else tempfile.gettempdir()
     tmp = tempfile.mkdtemp(prefix="gfc", dir=root)
     try:
         path = os.path.join(tmp, "m.f90")
         with open(path, "w") as fout:
             fout.write(text)
-        proc = subprocess.run(["gfortran", "-fsyntax-only", "-J", tmp] +
+        mode = ["-c", "-O0", "-o", os.path.join(tmp, "m.o")] if full \
+            else ["-fsyntax-only"]
+        proc = subprocess.run(["gfortran"] + mode + ["-J", tmp] +
                               flags + [path], capture_output=True,
                               text=True, timeout=120, cwd=tmp)
         return parse_errors(proc.stderr), proc.returncode
